@@ -626,9 +626,60 @@ def _forced_disable_race(ctx, active):
         _call(ep.protocol.disable, 2.0)
 
 
+def _peer_leaves_at_once(ctx, rounds):
+    """A passive endpoint is visited by peers that connect and leave at once (port scan, health check, crashed peer) - while the
+    accept thread is still handing the connection over. After each visit a proper peer must be accepted and selected."""
+    port = _free_port(ctx)
+    ep = RealEndpoint(False, port)
+    wit = {"mode": "passive", "scenario": "peer connects and leaves at once, then a proper peer comes"}
+    try:
+        ep.protocol.enable()
+        time.sleep(0.2)
+        for i in range(rounds):
+            try:
+                socket.create_connection(("127.0.0.1", port), timeout=1.0).close()
+            except OSError:
+                pass            # not listening yet again: fine, that is what the next loop waits for
+            ok = False
+            refused_for = 0.0
+            t0 = time.monotonic()
+            while time.monotonic() - t0 < 6.0 and not ok:
+                try:
+                    c = socket.create_connection(("127.0.0.1", port), timeout=1.0)
+                except OSError:
+                    time.sleep(0.02)
+                    refused_for = time.monotonic() - t0
+                    continue
+                info = {}
+                try:
+                    c.sendall(wire.hsms_control(wire.SELECT_REQ, 0x700 + i))
+                    fr = _recv_frames(c, lambda f: any(x.stype == wire.SELECT_RSP for x in f), timeout=1.5, info=info)
+                    ok = any(x.stype == wire.SELECT_RSP and x.system == 0x700 + i for x in fr)
+                except OSError:
+                    ok = False
+                if not ok:
+                    c.close()
+                    time.sleep(0.05)
+            ctx.count("partB.peer_leaves_at_once_rounds")
+            ctx.case(("B-leaves-at-once", i), nontrivial=True)
+            if not ok:
+                ths = [t.name for t in threading.enumerate() if t.name.startswith("secsgem_tcp")]
+                ctx.violation("B:no-connection-or-select-after-a-peer-that-left-at-once",
+                              {**wit, "round": i, "state": ep.state, "connection_refused_for_s": round(refused_for, 2), "tcp_threads": ths})
+                return
+            c.close()
+            end = time.monotonic() + 3
+            while time.monotonic() < end and ep.state != NC:
+                time.sleep(0.002)
+    finally:
+        _call(ep.protocol.disable, 3.0)
+
+
 def part_b(ctx, n):
     if ctx.shard < 4:
         _forced_disable_race(ctx, active=ctx.shard % 2 == 0)
+    if 4 <= ctx.shard < 8 or ctx.nshards < 8:
+        _peer_leaves_at_once(ctx, 12 if ctx.quick else 200)
     inj = sched.YieldInjector(["secsgem/common/tcp_connection.py", "secsgem/common/tcp_server_connection.py",
                                "secsgem/common/tcp_client_connection.py"])
     inj.install()
